@@ -156,7 +156,7 @@ pub fn gen_adp_history(rng: &mut Rng, chain: Vec<Stage>, batched: bool, g: &AGen
         apply_model(&mut model, &vop);
         ops.push(AOp::Src(vop));
     }
-    AdpHistory { capacity, init, chain, batched, eager, ops }
+    AdpHistory { capacity, init, chain, batched, eager, same_waker: rng.chance(1, 4), ops }
 }
 
 /// source alphabet for exhaustive enumeration: every diff kind, every index; inserted values come
@@ -248,6 +248,7 @@ fn exh_adp(
                 chain: r.chain.clone(),
                 batched: r.batched,
                 eager: r.eager,
+                same_waker: leaf % 3 == 2,
                 ops: ops.to_vec(),
             };
             judge_adp(prop, &h, &p.known, json!({"gen": gen_name, "case": i, "leaf": leaf}), out, nontrivial);
@@ -544,7 +545,8 @@ pub fn run_c12(p: &Params) -> Outcome {
         }
     }
     let inits: Vec<Vec<u32>> = vec![vec![], vec![6, 1], vec![3, 8, 2, 5, 4]];
-    let roots = roots_for(&chains, &inits, &[(true, 16)]);
+    let modes: &[(bool, usize)] = if p.thorough { &[(true, 16), (false, 1)] } else { &[(true, 16)] };
+    let roots = roots_for(&chains, &inits, modes);
     let depth = if p.thorough { 2 } else { 1 };
     let alpha = |r: &ARoot, m: &[u32], step: usize| -> Vec<AOp> {
         let mut a = src_alphabet(m, step, &|s, j| (7 + 5 * s + 2 * j) as u32 % 12, 7, step == 0);
@@ -702,7 +704,7 @@ pub fn run_c13(p: &Params) -> Outcome {
         &g,
         &|rng| {
             let n = rng.range(1, 3);
-            ((0..n).map(|_| gen_stage(rng, BASIC_PKS, 6)).collect(), true)
+            ((0..n).map(|_| gen_stage(rng, ALL_PKS, 6)).collect(), true)
         },
         &nt,
     ));
